@@ -416,6 +416,14 @@ func enumerate(emit func(proto.Case), next func(string) string) {
 	for i, v := range d2 {
 		t2[i] = enumText(v)
 	}
+	// every depth<=2 document x every single exclusion in JSONPath notation at the raw entry point (policy mode)
+	for _, t := range t2 {
+		ops := make([]string, 0, 2*len(cs))
+		for _, c := range cs {
+			ops = append(ops, opLine("raw", []string{note("req", c)}, t), opLine("raw", []string{note("resp", c)}, t))
+		}
+		emit(proto.Case{ID: next("j"), Ops: ops})
+	}
 	// every depth<=3 document x every single exclusion of <= 3 segments, plain and prefixed notation
 	for _, side := range []string{"raw", "req"} {
 		for _, t := range t3 {
